@@ -59,6 +59,10 @@ func targetStage(meta *common.Meta, tier, base, bin, outDir string) int {
 		mk("mixed-packages", "mixed", map[string]string{"mixed/a.go": "package mixed\n\n" + planted("mixed"), "mixed/c.go": "package other\n\nfunc H() {}\n"}, "./tg/mixed", true),
 		mk("invalid-import-path", "imp", map[string]string{"imp/a.go": "package imp\n\nimport \"\"\n\n" + planted("imp")}, "./tg/imp", true),
 		mk("only-a-package-clause-missing", "nopkg", map[string]string{"nopkg/a.go": "\n" + planted("nopkg")}, "./tg/nopkg", true),
+		// a good file next to a file that is broken at or before its package clause
+		mk("clause-misspelt-next-to-good-file", "cm", map[string]string{"cm/good.go": "package cm\n\n" + planted("cm"), "cm/bad.go": "packag cm\n"}, "./tg/cm", true),
+		mk("zero-byte-file-next-to-good-file", "cz", map[string]string{"cz/good.go": "package cz\n\n" + planted("cz"), "cz/bad.go": ""}, "./tg/cz", true),
+		mk("conflict-marker-next-to-good-file", "cc", map[string]string{"cc/good.go": "package cc\n\n" + planted("cc"), "cc/bad.go": "<<<<<<< HEAD\npackage cc\n=======\n>>>>>>> x\n"}, "./tg/cc", true),
 		mk("missing-directory", "", nil, "./tg/nosuchdir", false),
 		mk("missing-file", "", nil, "./tg/nosuchfile.go", false),
 		mk("pattern-without-match", "", nil, "./tg/nosuchtree/...", false),
@@ -303,6 +307,40 @@ func profileStage(meta *common.Meta, base, bin string) int {
 				meta.Fail("C19/cli/message-does-not-name-problem:unwritable-profile", fmt.Sprintf("%s %v: %s", exe, args, firstLines(out, 3)), args)
 			case !diagLineRE.MatchString(out):
 				meta.Fail("C19/cli/diagnostics-lost:unwritable-profile", fmt.Sprintf("%s %v: the captLocal diagnostic of ./p1 is not printed: %s", exe, args, firstLines(out, 3)), args)
+			}
+		}
+	}
+	return runs
+}
+
+// versionStage: -go values that have the documented shape but name no Go release: major version 0. (The bare prefix
+// "go" is a spelling of "the latest version" that the repository's own suite asserts; it is not in the list.) A front-end that accepts one of them must at least not treat it as "the latest version";
+// the observable is octalLiteral (>= 1.13): `0755` is reported for the latest version and must not be reported for
+// a version that is older than every release. Refusing the value (non-zero status, message quoting it) is fine.
+func versionStage(meta *common.Meta, base, bin string) int {
+	common.WriteFile(filepath.Join(base, "verpkg", "a.go"), "package verpkg\n\nconst Perm = 0755\n")
+	runs := 0
+	for _, v := range []string{"0.7", "0.0", "go0.1", "0.13", "00.5"} {
+		for _, exe := range []string{"go-critic", "gocritic", "go-critic-analysis", "gocritic-analysis"} {
+			front := "cli"
+			args := []string{"check", "-enable=octalLiteral", "-go=" + v, "./verpkg"}
+			if strings.HasSuffix(exe, "-analysis") {
+				front = "analyzer"
+				args = []string{"-enable=octalLiteral", "-disable=", "-go=" + v, "./verpkg"}
+			}
+			out, code, err := common.Run(120*time.Second, base, common.GoEnv(), filepath.Join(bin, exe), args...)
+			runs++
+			if err != nil {
+				meta.Fail("C19/"+front+"/hang:version-naming-no-release", err.Error(), args)
+				continue
+			}
+			if panicRE.MatchString(out) {
+				meta.Fail("C19/"+front+"/panic:version-naming-no-release", fmt.Sprintf("%s %v: %s", exe, args, firstLines(out, 5)), args)
+				continue
+			}
+			refused := code != 0 && !strings.Contains(out, "octalLiteral: ") && strings.Contains(out, v)
+			if !refused && strings.Contains(out, "octalLiteral: ") {
+				meta.Fail("C19/"+front+"/version-naming-no-release-taken-for-latest", fmt.Sprintf("%s %v: -go=%s names no Go release, yet it is accepted and treated as the LATEST version (octalLiteral, gated >= 1.13, reports): %s", exe, args, v, firstLines(out, 2)), map[string]interface{}{"exe": exe, "args": args, "file": "package verpkg\n\nconst Perm = 0755\n"})
 			}
 		}
 	}
